@@ -28,7 +28,9 @@ def quote_if_needed(x):
         # can only be written as a quoted path step.  The same goes for an
         # identifier that is spelled like a keyword.
         if not re.fullmatch(r"[a-zA-Z_][a-zA-Z0-9_]*", x) or x in _RESERVED_WORDS:
-            if not x.startswith("'"):
+            # A step may be given already quoted; text that merely begins
+            # with a quote is a name like any other.
+            if not re.fullmatch(r"'(?:[^'\\]|\\['\\])*'", x):
                 return "'" + escape_quotes_and_backslashes(x) + "'"
     return x
 
